@@ -115,9 +115,10 @@ def prepare_process():
 
 
 def repo_tree_id():
+    repo = os.environ.get("VERIF_REPO") or "/repo"
     try:
-        head = subprocess.run(["git", "-C", "/repo", "rev-parse", "HEAD"], capture_output=True, text=True).stdout.strip()
-        dirty = subprocess.run(["git", "-C", "/repo", "status", "--porcelain", "--untracked-files=no"], capture_output=True, text=True).stdout.strip()
+        head = subprocess.run(["git", "-C", repo, "rev-parse", "HEAD"], capture_output=True, text=True).stdout.strip()
+        dirty = subprocess.run(["git", "-C", repo, "status", "--porcelain", "--untracked-files=no"], capture_output=True, text=True).stdout.strip()
         return head + ("+dirty" if dirty else "")
     except Exception:
         return "unknown"
